@@ -375,19 +375,20 @@ fn pump<X, I: Iterator<Item = X>>(
     max: usize,
     conv: fn(X) -> Seen,
     tick: &dyn Fn() -> u64,
-) -> Vec<(Option<Seen>, u64, u64)> {
-    let mut out = Vec::new();
-    while out.len() < max {
+    emit: &mut dyn FnMut(Option<Seen>, u64, u64),
+) {
+    let mut n = 0;
+    while n < max {
         let t0 = tick();
         let r = it.next().map(conv);
         let t1 = tick();
         let stop = r.is_none();
-        out.push((r, t0, t1));
+        emit(r, t0, t1);
+        n += 1;
         if stop {
             break;
         }
     }
-    out
 }
 
 impl Rx {
@@ -479,27 +480,27 @@ impl Rx {
     /// Non-blocking iterator (`try_iter`, `&rx` into_iter, `try_iter_with`): up to `max` calls of
     /// `next()`.  `variant` selects among the equivalent entry points.  Every `next()` is
     /// returned with its logical start/end time; a `None` item ends the list.
-    pub fn try_iter(&mut self, max: usize, variant: u8, tick: &dyn Fn() -> u64) -> Option<Vec<(Option<Seen>, u64, u64)>> {
+    pub fn try_iter(&mut self, max: usize, variant: u8, tick: &dyn Fn() -> u64, emit: &mut dyn FnMut(Option<Seen>, u64, u64)) -> Option<()> {
         match self {
             Rx::B(r) => Some(if variant % 2 == 0 {
-                pump(r.try_iter(), max, conv_t, tick)
+                pump(r.try_iter(), max, conv_t, tick, emit)
             } else {
-                pump((&*r).into_iter(), max, conv_t, tick)
+                pump((&*r).into_iter(), max, conv_t, tick, emit)
             }),
             Rx::M(r) => Some(if variant % 2 == 0 {
-                pump(r.try_iter(), max, conv_t, tick)
+                pump(r.try_iter(), max, conv_t, tick, emit)
             } else {
-                pump((&*r).into_iter(), max, conv_t, tick)
+                pump((&*r).into_iter(), max, conv_t, tick, emit)
             }),
             Rx::BU(r) => Some(if variant % 2 == 0 {
-                pump((&*r).into_iter(), max, conv_t, tick)
+                pump((&*r).into_iter(), max, conv_t, tick, emit)
             } else {
-                pump(r.try_iter_with(|t| t.view()), max, conv_s, tick)
+                pump(r.try_iter_with(|t| t.view()), max, conv_s, tick, emit)
             }),
             Rx::MU(r) => Some(if variant % 2 == 0 {
-                pump((&*r).into_iter(), max, conv_t, tick)
+                pump((&*r).into_iter(), max, conv_t, tick, emit)
             } else {
-                pump(r.try_iter_with(|t| t.view()), max, conv_s, tick)
+                pump(r.try_iter_with(|t| t.view()), max, conv_s, tick, emit)
             }),
             _ => None,
         }
@@ -511,19 +512,19 @@ impl Rx {
 
     /// Blocking iterator (`into_iter`, `iter_with`): consumes the handle, calls `next()` up to
     /// `max` times (stops at the end of the stream); the handle is dropped with the iterator.
-    pub fn into_iter_take(self, max: usize, variant: u8, tick: &dyn Fn() -> u64) -> Result<Vec<(Option<Seen>, u64, u64)>, Rx> {
+    pub fn into_iter_take(self, max: usize, variant: u8, tick: &dyn Fn() -> u64, emit: &mut dyn FnMut(Option<Seen>, u64, u64)) -> Result<(), Rx> {
         match self {
-            Rx::B(r) => Ok(pump(r.into_iter(), max, conv_t, tick)),
-            Rx::M(r) => Ok(pump(r.into_iter(), max, conv_t, tick)),
+            Rx::B(r) => Ok(pump(r.into_iter(), max, conv_t, tick, emit)),
+            Rx::M(r) => Ok(pump(r.into_iter(), max, conv_t, tick, emit)),
             Rx::BU(r) => Ok(if variant % 2 == 0 {
-                pump(r.into_iter(), max, conv_t, tick)
+                pump(r.into_iter(), max, conv_t, tick, emit)
             } else {
-                pump(r.iter_with(|t| t.view()), max, conv_s, tick)
+                pump(r.iter_with(|t| t.view()), max, conv_s, tick, emit)
             }),
             Rx::MU(r) => Ok(if variant % 2 == 0 {
-                pump(r.into_iter(), max, conv_t, tick)
+                pump(r.into_iter(), max, conv_t, tick, emit)
             } else {
-                pump(r.iter_with(|t| t.view()), max, conv_s, tick)
+                pump(r.iter_with(|t| t.view()), max, conv_s, tick, emit)
             }),
             other => Err(other),
         }
